@@ -22,15 +22,18 @@ RULE = ("histories of 0-6 steps from {Program(subset/order of libraries), import
 REQUIRED_COUNTERS = ["histories_run", "clean_room_references", "library_snapshots_compared", "duplicate_expectations_checked"]
 ASSUMPTIONS = ["identity of class objects is not compared (package libraries are re-executed per Program)", "order of names in the duplicate message is not judged"]
 
-USER = ["ulib", "ulib_extra", "ulibx", "other", "upkg", "upkg_more"]
+USER = ["ulib", "ulib_extra", "ulibx", "other", "upkg", "upkg_more", "upkg_one", "upkgzone", "upkg.one", "upkg.two", "updup.a"]
 CSV = list(arr.CSV_LIBS)
 NC = list(arr.NC_LIBS)
 PROBES = [["ulib"], ["ulib_extra"], ["ulibx"], ["other"], ["upkg"], ["upkg_more"], ["ulib", "other"], ["other", "ulib"], ["ulib", "ulib_extra"], ["ulib", "ulibx"],
           ["ulib_extra", "other"], ["upkg", "other"], ["upkg", "upkg_more"], CSV, NC, CSV + ["ulib"], ["ulib"] + NC, CSV + ["other", "upkg"], ["mpilot.libraries.eems.basic"],
-          ["mpilot.libraries.eems.basic", "ulibx"], ["mpilot.libraries.eems.csv"], ["mpilot.libraries.eems.netcdf"], ["mpilot.libraries.eems.csv", "mpilot.libraries.eems.netcdf"]]
+          ["mpilot.libraries.eems.basic", "ulibx"], ["mpilot.libraries.eems.csv"], ["mpilot.libraries.eems.netcdf"], ["mpilot.libraries.eems.csv", "mpilot.libraries.eems.netcdf"],
+          ["upkg.one"], ["upkg.one", "upkg.two"], ["upkg.one", "other"], ["upkg_one"], ["updup"], ["updup.a"], ["updup.a", "updup.b"], ["updup.a", "other"],
+          ["mpilot.libraries.eems"], ["upkg", "upkg_one"]]
 # expected duplicates by construction of the harness libraries (None = must succeed)
 DUPS = {("ulib", "ulib_extra"): ["Shared"], ("ulib", "ulibx"): ["Alpha"], ("upkg", "upkg_more"): ["PkgOne"],
-        ("mpilot.libraries.eems.csv", "mpilot.libraries.eems.netcdf"): ["EEMSRead", "EEMSWrite"]}
+        ("mpilot.libraries.eems.csv", "mpilot.libraries.eems.netcdf"): ["EEMSRead", "EEMSWrite"],
+        ("updup",): ["Shared"], ("updup.a", "updup.b"): ["Shared"], ("mpilot.libraries.eems",): ["EEMSRead", "EEMSWrite"], ("upkg", "upkg_one"): ["PkgOne"]}
 MODEL = "A = Alpha()\nB = Shared()"
 
 
@@ -57,6 +60,19 @@ def cases(ctx):
     for i in range(ctx.n(96, 4000)):
         probe = PROBES[(i * ctx.nshards + ctx.shard) % len(PROBES)]
         yield {"probe": probe, "history": gen_history(rng)}
+    # targeted: the very same library tuple requested before in this process (conflicting or not), and names that differ
+    # from a requested dotted name only in the character at the dot
+    k0 = 0
+    for probe in PROBES:
+        if ctx.mine(k0):
+            yield {"probe": probe, "history": [["program", probe]]}
+            yield {"probe": probe, "history": [["program", probe], ["define", "Zeta", "__main__"], ["program", probe]]}
+        k0 += 1
+    for first, probe in [("upkg_one", ["upkg.one"]), ("upkgzone", ["upkg.one"]), ("upkg_one", ["upkg.one", "other"]), ("upkg_one", ["upkg"])]:
+        if ctx.mine(k0):
+            yield {"probe": probe, "history": [["import", first]]}
+            yield {"probe": probe, "history": [["program", [first]]]}
+        k0 += 1
     # targeted: prefix-related library loaded first
     for k, (first, probe) in enumerate([("ulib_extra", ["ulib"]), ("ulibx", ["ulib"]), ("upkg_more", ["upkg"]), ("mpilot.libraries.eems.netcdf", ["mpilot.libraries.eems.basic"])]):
         if ctx.mine(k):
